@@ -73,6 +73,9 @@ def alpha(x, depth=0):
         return V(kind, t, ln=len(its), ks=[alpha(k, depth + 1) for k, _ in its], items=[alpha(v, depth + 1) for _, v in its])
     if isinstance(x, (list, tuple)):
         return V("list" if isinstance(x, list) else "tuple", t, ln=len(x), items=[alpha(v, depth + 1) for v in x])
+    import collections as _c
+    if isinstance(x, _c.deque):
+        return V("deque", t, ln=len(x), items=[alpha(v, depth + 1) for v in x])
     if isinstance(x, (set, frozenset)):
         its = sorted((alpha(v, depth + 1) for v in x), key=lambda r: repr(sorted(r.items())))
         return V("set" if isinstance(x, set) else "fset", t, ln=len(x), items=its)
